@@ -153,7 +153,7 @@ def properties(draw, cfg, yield_ratio=(1e-3, 1e-1)):
     vals['Jm parameter'] = draw(st.floats(3.0, 100.0))
     Y0 = E * draw(st.floats(*yield_ratio))
     vals['yield strength'] = Y0
-    vals['hardening modulus'] = E * draw(st.sampled_from([0.001, 0.01, 0.1, 1.0]))
+    vals['hardening modulus'] = E * draw(st.sampled_from([0.001, 0.01, 0.1, 1.0, 0.0]))
     vals['saturation strength'] = Y0 * draw(st.floats(1.1, 3.0))
     vals['reference plastic strain'] = draw(gen.logfloat(-3, 0))
     vals['hardening exponent'] = draw(st.floats(1.0, 20.0))
